@@ -46,6 +46,7 @@ type UnitResult struct {
 	mu      sync.Mutex
 	stop    int32
 	pending int32
+	nsamples int32
 	paths   int64
 }
 
@@ -227,7 +228,7 @@ func (s *scheduler) runTask(m *Machine, t *task) {
 			truncated = true
 			break
 		}
-		wantSample := u.Samples > 0 && len(samples) < u.Samples && local%sampleEvery == 0
+		wantSample := u.Samples > 0 && len(samples) < u.Samples && local%sampleEvery == 0 && atomic.LoadInt32(&ur.nsamples) < int32(u.Samples)
 		res := m.RunPath(entry, wantSample)
 		local++
 		if res.Failure != nil {
@@ -241,6 +242,7 @@ func (s *scheduler) runTask(m *Machine, t *task) {
 			}
 		}
 		if res.Nondets != nil {
+			atomic.AddInt32(&ur.nsamples, 1)
 			samples = append(samples, Sample{Unit: u.Name, Entry: u.Entry, Params: u.Params, Nondets: res.Nondets, Obs: res.Obs, End: res.End})
 			if len(samples)%4 == 0 {
 				sampleEvery *= 2 // spread samples over the exploration
